@@ -116,7 +116,7 @@ func runC13ct(env *core.Env, ci any) {
 	var obs *conntrack.Observer
 	var inner *slowCloseConn
 	var peerGot int
-	var moved int // bytes the write calls reported as written
+	var moved int         // bytes the write calls reported as written
 	env.Sched.Go(func() { // the peer
 		pc, err := l.Accept()
 		if err != nil {
